@@ -36,16 +36,7 @@ def constraintToks (vc : VC) : List RNode :=
   vc.display.map fun c =>
     if c = '>' then Node.tok .R_ANGLE [c] else if c = '<' then Node.tok .L_ANGLE [c] else Node.tok .EQUAL [c]
 
-/-- Rust `str::split_once(c)` -/
-def splitOnce (c : Char) : Str → Option (Str × Str)
-  | [] => none
-  | x :: xs =>
-    if x = c then some ([], xs)
-    else match splitOnce c xs with
-      | some (a, b) => some (x :: a, b)
-      | none => none
-
-/-- `version_tokens` (relations.rs:1069-1084, after fix 4ba50b0): `IDENT`, or — when the version has
+/-- `version_tokens` (relations.rs:1059-1069 at 27115b9; rewritten by fix 4ba50b0): `IDENT`, or — when the version has
     an epoch — `IDENT (COLON IDENT)*`: the pieces of `text.split(':')` as IDENT tokens with a COLON
     before every piece but the first (what the lexer makes of the same text) -/
 def versionTokens (v : Version) : List RNode :=
